@@ -118,8 +118,15 @@ def fresh_process_checks(run: core.Run, texts: List[str], n_env: int) -> None:
             {"PYTHONHASHSEED": "4242", "TZ": "<+0545>-5:45"}][:n_env]
     tmp = Path(tempfile.mkdtemp(prefix="vfresh-"))
     try:
+        import re
         for ti, text in enumerate(texts):
             (tmp / f"c{ti}.yaml").write_text(text)
+            # history: first build near-miss configurations that MEAN something else (numbers spelled as
+            # ints / bools instead of floats) in this interpreter, then identify the configuration itself
+            near = re.sub(r"(?<![\w.])(\d+)\.0+(?![\w.])", r"\1", text)
+            if near != text:
+                identities(near)
+                run.extra["near_miss_histories"] = run.extra.get("near_miss_histories", 0) + 1
             ref = json.loads(json.dumps(identities(text), sort_keys=True))
             for ei, env in enumerate(envs):
                 cwd = tmp / f"cwd{ei}"
@@ -182,9 +189,9 @@ def check(tier: str) -> int:
     run.extra["edges_by_action"] = acts
     seeds_txt = []
     seen = set()
-    for e in es:
+    for e in sorted(es, key=lambda e: (not any(n["sweep"]["on"] for n in e["from"]), e["action"])):   # sweep configurations first
         t = render(e["from"])
-        if t not in seen and len(seeds_txt) < (3 if tier == "quick" else 12):
+        if t not in seen and len(seeds_txt) < (4 if tier == "quick" else 12):
             seen.add(t)
             seeds_txt.append(t)
     fresh_process_checks(run, seeds_txt, 3 if tier == "quick" else 4)
